@@ -139,7 +139,7 @@ def call(fn, *a, **kw):
         except (Violation, StepLimit, ShrinkTimeout):
             raise
         except BaseException as e:  # noqa
-            if isinstance(e, (KeyboardInterrupt, MemoryError)):
+            if isinstance(e, (KeyboardInterrupt, MemoryError)) or getattr(e, "vf_passthrough", False):
                 raise
             tb = traceback.extract_tb(e.__traceback__)
             where = ""
@@ -311,6 +311,8 @@ def run_shard(pid, tier, seed, shard, nshards, outpath):
                         break
                 if stats.violation is not None:
                     break
+                if isinstance(complete, dict):
+                    complete = complete.get("complete", False)
                 stats.exhaustive.append({"name": name, "cases": cnt, "complete": bool(complete)})
         # 3. generated search
         n = budget.get("examples", 0)
